@@ -31,6 +31,7 @@ type Obligation struct {
 	ModelVs []*Term
 	Sub     []*Obligation // case split / per-return split
 	Retried  bool
+	Confirmed string // thorough tier: the other solver that also discharged it
 	Brief    bool // listed as an open finding: short time limit, no second pass
 	OnlySubs bool         // the obligation is the conjunction of Sub; it is not tried as a whole: tried when the whole obligation is not proved quickly
 }
